@@ -47,7 +47,10 @@ type RequestContext struct {
 	upstreamCookies map[string]string
 	err             error
 
+	// the following properties are created lazy and cached
+
 	savedBody any
+	hmdlReq   *heimdall.Request
 	outputs   map[string]any
 }
 
@@ -91,12 +94,18 @@ func canonicalizeHeaders(headers map[string]string) map[string]string {
 }
 
 func (r *RequestContext) Request() *heimdall.Request {
-	return &heimdall.Request{
-		RequestFunctions:  r,
-		Method:            r.reqMethod,
-		URL:               &heimdall.URL{URL: *r.reqURL},
-		ClientIPAddresses: r.ips,
+	// the view must be created once only: rule matching stores the captured path values in it,
+	// which the pipeline reads later on
+	if r.hmdlReq == nil {
+		r.hmdlReq = &heimdall.Request{
+			RequestFunctions:  r,
+			Method:            r.reqMethod,
+			URL:               &heimdall.URL{URL: *r.reqURL},
+			ClientIPAddresses: r.ips,
+		}
 	}
+
+	return r.hmdlReq
 }
 
 func (r *RequestContext) Headers() map[string]string { return r.reqHeaders }
